@@ -105,6 +105,20 @@ PROPS = {
              "must agree across settings and with the reference",
         technique="Coq proof (window contains key and lower bound for every hop/truncation; lookups = linear spec) + function- and API-level correspondence",
     ),
+    "C18": dict(
+        runs=[("readonly", "", "rorun", 60, 1500, 0)],
+        corr={"model:open-result", "model:opens", "model:removes", "driver-error", "harness-error"}, corr_held=False,
+        spec={"spec:readonly-dir-changed", "spec:readonly-mutating-op", "spec:open-content", "spec:open-failed-with-valid-file"},
+        spec_held=False,
+        rule="directories left by 1-4 persisted rounds (with and without forced compaction, files kept), then varied: "
+             "as is; a newer file with an incomplete header page; a newer file with a full header and no footer; both; "
+             "junk and unparseable data-file names; an older stale copy under a lower sequence number; each opened "
+             "read-only and (on a copy) read-write with sampled KeepFiles / compaction concern / index options, through "
+             "a recording OpenFile; against the read-only collection: batches, merger notification, Persist with forced "
+             "compaction, close; compared: files opened (flags, order), files removed, SHA-256 of every file before/after, "
+             "served content; non-trivial = the directory holds >= 2 data files",
+        technique="Coq proof (read-only open/persist emit no mutating effect for any directory; newest valid file served) + recorded file operations and directory hashes",
+    ),
     "C11": dict(
         runs=[TREE + (360, 6000, 28)],
         corr=STRUCT | READS | {"tmodel:cget"}, corr_held=True,
